@@ -402,6 +402,9 @@ func (f *FuncCFG) reach(from Point, o *searchOpts, target func(pt Point, atExit 
 			initFacts = map[types.Object]bool{}
 		}
 		for k, v := range o.InitFacts {
+			if old, has := initFacts[k]; has && old != v {
+				return nil, false // the starting edge needs the opposite of what is known: no such path
+			}
 			initFacts[k] = v
 		}
 	}
@@ -3920,4 +3923,41 @@ func (f *FuncCFG) constBoolParams() map[types.Object]bool {
 		delete(out, po)
 	}
 	return out
+}
+
+// statefulClosureFactory: call is a call of a function of the analysed package whose body declares
+// variables (the closure's private state) and then returns a function literal. Returns the literal
+// and the binding of the factory's parameters to the call's arguments.
+func statefulClosureFactory(p *Prog, info *types.Info, call *ast.CallExpr) (*ast.FuncLit, map[types.Object]ast.Expr) {
+	if p == nil {
+		return nil, nil
+	}
+	fn := staticCallee(info, call)
+	if fn == nil {
+		return nil, nil
+	}
+	fd := p.decls().byFunc[fn.Origin()]
+	if fd == nil || fd.Body == nil || p.decls().infoOf[fd] != info || len(fd.Body.List) == 0 {
+		return nil, nil
+	}
+	for _, st := range fd.Body.List[:len(fd.Body.List)-1] {
+		if _, isDecl := st.(*ast.DeclStmt); !isDecl {
+			return nil, nil
+		}
+	}
+	rs, ok := fd.Body.List[len(fd.Body.List)-1].(*ast.ReturnStmt)
+	if !ok || len(rs.Results) != 1 {
+		return nil, nil
+	}
+	lit, _ := ast.Unparen(rs.Results[0]).(*ast.FuncLit)
+	if lit == nil {
+		return nil, nil
+	}
+	bind := map[types.Object]ast.Expr{}
+	for i, po := range paramObjs(info, fd) {
+		if po != nil && i < len(call.Args) {
+			bind[po] = call.Args[i]
+		}
+	}
+	return lit, bind
 }
